@@ -1,15 +1,22 @@
 (* C15 — property theorems only.  Each is closed by [exact <lemma>]; the lemmas live in
    Proofs_*.v, the model in Model.v, Gen/C15.v is regenerated from /repo on every run.
+   The model is the code as of fix a876f32 (the pooled buffer is zeroed over
+   min(Len()+1, 4096) octets after Get).
 
    The two packers are folds over ABSTRACT library primitives [pack_name] / [pack_rr]
    (both Go implementations call the same library functions).  What is assumed of
-   those primitives is spelled out as premises of each theorem that needs it:
-     in_place_*            the buffer keeps its length (writes happen in the caller's array);
-     prefix_determined_*   a successful pack is a function of the octets before its offset:
-                           it writes every octet it advances over;
-     same_success_*        on buffers of one length, failing does not depend on stale content.
-   [prefix_determined_rr] is exactly where the real library falls short (packDataA with a
-   16-byte non-IPv4 address): see the *_refuted theorems and finding stale-a-rdata. *)
+   those primitives is spelled out as premises of each theorem that needs it; all of
+   them are frame / sizing facts the library provides, also for the one primitive that
+   skips octets (packDataA on a 16-byte non-IPv4 address; Proofs_refute proves every
+   premise for exactly such a packer):
+     in_place_*       the buffer keeps its length (writes happen in the caller's array);
+     frame_*          a pack reads nothing from the buffer: offsets and dictionary do not
+                      depend on its content, writes are the same wherever two buffers
+                      agreed, octets it does not write stay as they were;
+     in_bounds_rr     a successful pack ends inside the buffer;
+     same_success_*   on buffers of one length, failing does not depend on content;
+     len_bounds_* / len_suffices_*   Msg.Len bounds what is advanced over, and a buffer
+                      with room for Len never fails for lack of room. *)
 From Sdns Require Import Common.Base Gen.C15 C15.Model C15.Proofs_bits C15.Proofs_select C15.Proofs_buf
                          C15.Proofs_pack C15.Proofs_clone C15.Proofs_refute.
 
@@ -79,60 +86,57 @@ Print Assumptions select_opt_selects_last.
 
 (* ---- byte parity ---- *)
 
-(* Full statement (for EVERY record packer):
-     forall pack_name pack_rr st m bytes, pool_inv st -> try_pack st m = Some bytes -> lib_pack m = Some bytes.
-   Refuted as it stands (next theorem).  Proved for every packer that writes what it
-   advances over: whenever the pooled packer hands out bytes and the library packs the
-   message, they are the same bytes — header, questions, every record, compression
-   pointers, the rewritten OPT in every alias. *)
-Theorem trypack_eq_libpack_partial :
+(* whenever the pooled packer hands out bytes and the library packs the message, they are
+   the same bytes — header, questions, every record, compression pointers, the rewritten
+   OPT in every alias — whatever earlier messages left in the pooled buffer *)
+Theorem trypack_eq_libpack :
   forall (Name Body CMap : Type) (name_zero : Name) (cm_empty : CMap) (cm_len : CMap -> N)
          (pack_name : Name -> buf -> nat -> option CMap -> bool -> option (nat * buf * option CMap))
          (pack_rr : rrhdr Name -> Body -> buf -> nat -> option CMap -> bool -> option (nat * nat * buf * option CMap))
          (q_len : Name -> nat) (rr_len : Name -> Body -> nat),
   in_place_name Name CMap pack_name -> in_place_rr Name Body CMap pack_rr ->
-  prefix_determined_name Name CMap pack_name -> prefix_determined_rr Name Body CMap pack_rr ->
+  frame_name Name CMap pack_name -> frame_rr Name Body CMap pack_rr -> in_bounds_rr Name Body CMap pack_rr ->
   forall (st : pstate Name Body CMap) (m : msg Name Body) (bytes : buf),
   pool_inv Name Body CMap name_zero cm_empty st ->
   tp_bytes Name Body CMap (try_pack Name Body CMap name_zero cm_empty cm_len pack_name pack_rr q_len rr_len st m) = Some bytes ->
   forall (bytes' : buf) (m' : msg Name Body),
   lib_pack Name Body CMap cm_empty pack_name pack_rr q_len rr_len m = (LOk bytes', m') -> bytes = bytes'.
 Proof. exact trypack_eq_libpack_l. Qed.
-Print Assumptions trypack_eq_libpack_partial.
+Print Assumptions trypack_eq_libpack.
 
-(* ... and the library does pack it, under the library's own sizing contract (Len() bounds
-   what is written and a buffer with room for Len() never fails for lack of room) *)
-Theorem trypack_then_library_packs_partial :
+(* ... and the library does pack it, to those bytes (library's own sizing contract) *)
+Theorem trypack_then_library_packs :
   forall (Name Body CMap : Type) (name_zero : Name) (cm_empty : CMap) (cm_len : CMap -> N)
          (pack_name : Name -> buf -> nat -> option CMap -> bool -> option (nat * buf * option CMap))
          (pack_rr : rrhdr Name -> Body -> buf -> nat -> option CMap -> bool -> option (nat * nat * buf * option CMap))
          (q_len : Name -> nat) (rr_len : Name -> Body -> nat),
   in_place_name Name CMap pack_name -> in_place_rr Name Body CMap pack_rr ->
-  prefix_determined_name Name CMap pack_name -> prefix_determined_rr Name Body CMap pack_rr ->
-  sized_name Name CMap pack_name q_len -> sized_rr Name Body CMap pack_rr rr_len ->
+  frame_name Name CMap pack_name -> frame_rr Name Body CMap pack_rr ->
+  len_bounds_name Name CMap pack_name q_len -> len_bounds_rr Name Body CMap pack_rr rr_len ->
+  len_suffices_name Name CMap pack_name q_len -> len_suffices_rr Name Body CMap pack_rr rr_len ->
   forall (st : pstate Name Body CMap) (m : msg Name Body) (bytes : buf),
   pool_inv Name Body CMap name_zero cm_empty st ->
   tp_bytes Name Body CMap (try_pack Name Body CMap name_zero cm_empty cm_len pack_name pack_rr q_len rr_len st m) = Some bytes ->
   exists m', lib_pack Name Body CMap cm_empty pack_name pack_rr q_len rr_len m = (LOk bytes, m').
 Proof. exact trypack_then_library_packs_l. Qed.
-Print Assumptions trypack_then_library_packs_partial.
+Print Assumptions trypack_then_library_packs.
 
-(* a packer that advances over octets it does not write (the library's packDataA for a
-   16-byte non-IPv4 address) breaks parity: the pooled bytes contain four octets of an
-   earlier message.  Computed witness; replayed on the Go code by the wire driver
-   (cases tagged stale-a-rdata). *)
-Theorem trypack_eq_libpack_refuted :
-  exists (pack_name : unit -> buf -> nat -> option unit -> bool -> option (nat * buf * option unit))
-         (pack_rr : rrhdr unit -> unit -> buf -> nat -> option unit -> bool -> option (nat * nat * buf * option unit))
-         q_len rr_len st m bytes bytes',
-    in_place_name unit unit pack_name /\ in_place_rr unit unit unit pack_rr /\
-    same_success_name unit unit pack_name /\ same_success_rr unit unit unit pack_rr /\
-    pool_inv unit unit unit tt tt st /\
-    tp_bytes unit unit unit (try_pack unit unit unit tt tt (fun _ => 0%N) pack_name pack_rr q_len rr_len st m) = Some bytes /\
-    lib_pack unit unit unit tt pack_name pack_rr q_len rr_len m = (LOk bytes', m) /\
-    bytes <> bytes'.
-Proof. exact trypack_eq_libpack_refuted_l. Qed.
-Print Assumptions trypack_eq_libpack_refuted.
+(* the premises are what the library provides even where it skips octets: they all hold
+   for a packer that advances over four rdata octets without writing them, and on a pooled
+   buffer full of an earlier message the packer now emits the library's bytes for it
+   (before a876f32 it emitted the stale octets: Proofs_refute.before_fix_parity_failed) *)
+Theorem premises_hold_for_the_skipping_packer :
+  in_place_name unit unit skip_name /\ in_place_rr unit unit unit skip_rr /\
+  frame_name unit unit skip_name /\ frame_rr unit unit unit skip_rr /\ in_bounds_rr unit unit unit skip_rr /\
+  same_success_name unit unit skip_name /\ same_success_rr unit unit unit skip_rr /\
+  len_bounds_name unit unit skip_name skip_q_len /\ len_bounds_rr unit unit unit skip_rr skip_rr_len /\
+  len_suffices_name unit unit skip_name skip_q_len /\ len_suffices_rr unit unit unit skip_rr skip_rr_len /\
+  pool_inv unit unit unit tt tt w_dirty /\
+  tp_bytes unit unit unit (try_pack unit unit unit tt tt (fun _ => 0%N) skip_name skip_rr skip_q_len skip_rr_len w_dirty w_msg)
+    = Some w_library_bytes /\
+  lib_pack unit unit unit tt skip_name skip_rr skip_q_len skip_rr_len w_msg = (LOk w_library_bytes, w_msg).
+Proof. exact skipping_packer_premises. Qed.
+Print Assumptions premises_hold_for_the_skipping_packer.
 
 (* ---- declining ---- *)
 
@@ -142,9 +146,9 @@ Theorem decline_before_output :
   forall (Name Body CMap : Type) (name_zero : Name) (cm_empty : CMap) (cm_len : CMap -> N)
          (pack_name : Name -> buf -> nat -> option CMap -> bool -> option (nat * buf * option CMap))
          (pack_rr : rrhdr Name -> Body -> buf -> nat -> option CMap -> bool -> option (nat * nat * buf * option CMap))
-         (q_len : Name -> nat) (rr_len : Name -> Body -> nat) (v : slot Name Body -> wtarget)
+         (q_len : Name -> nat) (rr_len : Name -> Body -> nat) (scrub : bool) (v : slot Name Body -> wtarget)
          (st : pstate Name Body CMap) (m : msg Name Body),
-  let r := try_pack_gen Name Body CMap name_zero cm_empty cm_len pack_name pack_rr q_len rr_len v st m in
+  let r := try_pack_gen Name Body CMap name_zero cm_empty cm_len pack_name pack_rr q_len rr_len scrub v st m in
   tp_handled Name Body CMap r = false /\ tp_consumed Name Body CMap r = [] \/
   tp_handled Name Body CMap r = true /\ (exists (b : buf) (off : nat), tp_consumed Name Body CMap r = [slice3 b off off]).
 Proof. exact consumed_shape. Qed.
@@ -156,12 +160,12 @@ Theorem preflight_declines_touch_nothing :
   forall (Name Body CMap : Type) (name_zero : Name) (cm_empty : CMap) (cm_len : CMap -> N)
          (pack_name : Name -> buf -> nat -> option CMap -> bool -> option (nat * buf * option CMap))
          (pack_rr : rrhdr Name -> Body -> buf -> nat -> option CMap -> bool -> option (nat * nat * buf * option CMap))
-         (q_len : Name -> nat) (rr_len : Name -> Body -> nat) (v : slot Name Body -> wtarget)
+         (q_len : Name -> nat) (rr_len : Name -> Body -> nat) (scrub : bool) (v : slot Name Body -> wtarget)
          (st : pstate Name Body CMap) (m : msg Name Body),
   (forall o : option N,
      preflight (h_rcode (m_hdr Name Body m)) (shapes Name Body (m_answer Name Body m)) (shapes Name Body (m_ns Name Body m))
                (shapes Name Body (m_extra Name Body m)) (N.of_nat (msg_len Name Body q_len rr_len m)) <> Proceed o) ->
-  try_pack_gen Name Body CMap name_zero cm_empty cm_len pack_name pack_rr q_len rr_len v st m =
+  try_pack_gen Name Body CMap name_zero cm_empty cm_len pack_name pack_rr q_len rr_len scrub v st m =
   mk_tp Name Body CMap false [] st m.
 Proof. exact preflight_decline_keeps_state. Qed.
 Print Assumptions preflight_declines_touch_nothing.
@@ -202,9 +206,9 @@ Theorem capacity_pinned :
   forall (Name Body CMap : Type) (name_zero : Name) (cm_empty : CMap) (cm_len : CMap -> N)
          (pack_name : Name -> buf -> nat -> option CMap -> bool -> option (nat * buf * option CMap))
          (pack_rr : rrhdr Name -> Body -> buf -> nat -> option CMap -> bool -> option (nat * nat * buf * option CMap))
-         (q_len : Name -> nat) (rr_len : Name -> Body -> nat) (v : slot Name Body -> wtarget)
+         (q_len : Name -> nat) (rr_len : Name -> Body -> nat) (scrub : bool) (v : slot Name Body -> wtarget)
          (st : pstate Name Body CMap) (m : msg Name Body) (s : gslice),
-  In s (tp_consumed Name Body CMap (try_pack_gen Name Body CMap name_zero cm_empty cm_len pack_name pack_rr q_len rr_len v st m)) ->
+  In s (tp_consumed Name Body CMap (try_pack_gen Name Body CMap name_zero cm_empty cm_len pack_name pack_rr q_len rr_len scrub v st m)) ->
   sl_cap s = sl_len s /\ sl_reachable s = sl_bytes s.
 Proof. exact capacity_pinned_l. Qed.
 Print Assumptions capacity_pinned.
@@ -219,24 +223,25 @@ Theorem release_reestablishes_invariant :
          (pack_rr : rrhdr Name -> Body -> buf -> nat -> option CMap -> bool -> option (nat * nat * buf * option CMap))
          (q_len : Name -> nat) (rr_len : Name -> Body -> nat),
   in_place_name Name CMap pack_name -> in_place_rr Name Body CMap pack_rr ->
-  forall (v : slot Name Body -> wtarget) (st : pstate Name Body CMap) (m : msg Name Body),
+  forall (scrub : bool) (v : slot Name Body -> wtarget) (st : pstate Name Body CMap) (m : msg Name Body),
   pool_inv Name Body CMap name_zero cm_empty st ->
   pool_inv Name Body CMap name_zero cm_empty
-    (tp_state Name Body CMap (try_pack_gen Name Body CMap name_zero cm_empty cm_len pack_name pack_rr q_len rr_len v st m)).
+    (tp_state Name Body CMap (try_pack_gen Name Body CMap name_zero cm_empty cm_len pack_name pack_rr q_len rr_len scrub v st m)).
 Proof. exact try_pack_keeps_inv. Qed.
 Print Assumptions release_reestablishes_invariant.
 
-(* Full statement: any two pool states satisfying the release invariant give identical
-   output, for EVERY record packer.  Refuted as it stands (next theorem); proved for
-   packers that write what they advance over. *)
-Theorem pool_state_noninterference_partial :
+(* any two pool states satisfying the release invariant give identical output and the
+   same handled verdict: nothing of what earlier packs left in buffer, shim or dictionary
+   can be observed *)
+Theorem pool_state_noninterference :
   forall (Name Body CMap : Type) (name_zero : Name) (cm_empty : CMap) (cm_len : CMap -> N)
          (pack_name : Name -> buf -> nat -> option CMap -> bool -> option (nat * buf * option CMap))
          (pack_rr : rrhdr Name -> Body -> buf -> nat -> option CMap -> bool -> option (nat * nat * buf * option CMap))
          (q_len : Name -> nat) (rr_len : Name -> Body -> nat),
   in_place_name Name CMap pack_name -> in_place_rr Name Body CMap pack_rr ->
-  prefix_determined_name Name CMap pack_name -> prefix_determined_rr Name Body CMap pack_rr ->
+  frame_name Name CMap pack_name -> frame_rr Name Body CMap pack_rr ->
   same_success_name Name CMap pack_name -> same_success_rr Name Body CMap pack_rr ->
+  len_bounds_name Name CMap pack_name q_len -> len_bounds_rr Name Body CMap pack_rr rr_len ->
   forall (st1 st2 : pstate Name Body CMap) (m : msg Name Body),
   pool_inv Name Body CMap name_zero cm_empty st1 -> pool_inv Name Body CMap name_zero cm_empty st2 ->
   tp_bytes Name Body CMap (try_pack Name Body CMap name_zero cm_empty cm_len pack_name pack_rr q_len rr_len st1 m) =
@@ -244,51 +249,41 @@ Theorem pool_state_noninterference_partial :
   tp_handled Name Body CMap (try_pack Name Body CMap name_zero cm_empty cm_len pack_name pack_rr q_len rr_len st1 m) =
   tp_handled Name Body CMap (try_pack Name Body CMap name_zero cm_empty cm_len pack_name pack_rr q_len rr_len st2 m).
 Proof. exact pool_state_noninterference_l. Qed.
-Print Assumptions pool_state_noninterference_partial.
-
-Theorem pool_state_noninterference_refuted :
-  exists (pack_name : unit -> buf -> nat -> option unit -> bool -> option (nat * buf * option unit))
-         (pack_rr : rrhdr unit -> unit -> buf -> nat -> option unit -> bool -> option (nat * nat * buf * option unit))
-         q_len rr_len st1 st2 m,
-    in_place_name unit unit pack_name /\ in_place_rr unit unit unit pack_rr /\
-    same_success_name unit unit pack_name /\ same_success_rr unit unit unit pack_rr /\
-    pool_inv unit unit unit tt tt st1 /\ pool_inv unit unit unit tt tt st2 /\
-    tp_bytes unit unit unit (try_pack unit unit unit tt tt (fun _ => 0%N) pack_name pack_rr q_len rr_len st1 m) <>
-    tp_bytes unit unit unit (try_pack unit unit unit tt tt (fun _ => 0%N) pack_name pack_rr q_len rr_len st2 m).
-Proof. exact pool_state_noninterference_refuted_l. Qed.
-Print Assumptions pool_state_noninterference_refuted.
+Print Assumptions pool_state_noninterference.
 
 (* every interleaving of requests sharing the pool (each owns the state it took until it
    puts it back): all states stay within the invariant and every output is what a
    brand-new state would have produced for that message *)
-Theorem schedules_see_a_fresh_packer_partial :
+Theorem schedules_see_a_fresh_packer :
   forall (Name Body CMap : Type) (name_zero : Name) (cm_empty : CMap) (cm_len : CMap -> N)
          (pack_name : Name -> buf -> nat -> option CMap -> bool -> option (nat * buf * option CMap))
          (pack_rr : rrhdr Name -> Body -> buf -> nat -> option CMap -> bool -> option (nat * nat * buf * option CMap))
          (q_len : Name -> nat) (rr_len : Name -> Body -> nat),
   in_place_name Name CMap pack_name -> in_place_rr Name Body CMap pack_rr ->
-  prefix_determined_name Name CMap pack_name -> prefix_determined_rr Name Body CMap pack_rr ->
+  frame_name Name CMap pack_name -> frame_rr Name Body CMap pack_rr ->
   same_success_name Name CMap pack_name -> same_success_rr Name Body CMap pack_rr ->
+  len_bounds_name Name CMap pack_name q_len -> len_bounds_rr Name Body CMap pack_rr rr_len ->
   forall (es : list (event Name Body)) (s : sched_state Name Body CMap),
   sched_ok Name Body CMap name_zero cm_empty cm_len pack_name pack_rr q_len rr_len s ->
   sched_ok Name Body CMap name_zero cm_empty cm_len pack_name pack_rr q_len rr_len
            (sched_run Name Body CMap name_zero cm_empty cm_len pack_name pack_rr q_len rr_len es s).
 Proof. exact schedule_outputs_l. Qed.
-Print Assumptions schedules_see_a_fresh_packer_partial.
+Print Assumptions schedules_see_a_fresh_packer.
 
 (* ---- PackClone ---- *)
 
 (* what PackClone returns is what the library's Pack returns — bytes, error or panic —
    for every message, admissible or not; the caller's message comes back unwritten
    whenever every record is admissible *)
-Theorem packclone_eq_libpack_partial :
+Theorem packclone_eq_libpack :
   forall (Name Body CMap : Type) (name_zero : Name) (cm_empty : CMap) (cm_len : CMap -> N)
          (pack_name : Name -> buf -> nat -> option CMap -> bool -> option (nat * buf * option CMap))
          (pack_rr : rrhdr Name -> Body -> buf -> nat -> option CMap -> bool -> option (nat * nat * buf * option CMap))
          (q_len : Name -> nat) (rr_len : Name -> Body -> nat),
   in_place_name Name CMap pack_name -> in_place_rr Name Body CMap pack_rr ->
-  prefix_determined_name Name CMap pack_name -> prefix_determined_rr Name Body CMap pack_rr ->
-  sized_name Name CMap pack_name q_len -> sized_rr Name Body CMap pack_rr rr_len ->
+  frame_name Name CMap pack_name -> frame_rr Name Body CMap pack_rr ->
+  len_bounds_name Name CMap pack_name q_len -> len_bounds_rr Name Body CMap pack_rr rr_len ->
+  len_suffices_name Name CMap pack_name q_len -> len_suffices_rr Name Body CMap pack_rr rr_len ->
   forall (st : pstate Name Body CMap) (m : msg Name Body),
   pool_inv Name Body CMap name_zero cm_empty st ->
   fst (fst (pack_clone Name Body CMap name_zero cm_empty cm_len pack_name pack_rr q_len rr_len st m)) =
@@ -296,4 +291,4 @@ Theorem packclone_eq_libpack_partial :
   (forallb admissible_rr (shapes Name Body (m_records Name Body m)) = true ->
    snd (pack_clone Name Body CMap name_zero cm_empty cm_len pack_name pack_rr q_len rr_len st m) = m).
 Proof. exact packclone_eq_libpack_l. Qed.
-Print Assumptions packclone_eq_libpack_partial.
+Print Assumptions packclone_eq_libpack.
